@@ -7,7 +7,7 @@
    over all sequences, hence over all such orders.  The platform read of a public
    call is a separate step: the thread theorems at the end split every call into
    read and wrap step and quantify over all schedules of any number of threads. *)
-From PV Require Import C10.Spec C10.Proofs C10.ProofsWidth C10.ProofsConc C10.ProofsAbort Gen.C10_Tables.
+From PV Require Import C10.Spec C10.Proofs C10.ProofsWidth C10.ProofsConc C10.ProofsAbort C10.ProofsFork Gen.C10_Tables.
 
 (* every sequence of wrap_numbers(d, name) / cache_clear(name) / cache_clear() calls
    (unique keys, one tuple width per name): no call fails and every answer is, per
@@ -247,3 +247,30 @@ Theorem C10_commit_section_cannot_raise :
   existsb (fun fo => beqb (fst fo) (bs "run") && beqb (snd fo) (bs "._remove_dead_reminders")) gen_wrap_ops = true.
 Proof. exact commit_section_cannot_raise. Qed.
 Print Assumptions C10_commit_section_cannot_raise.
+
+(* os.fork().  [FFork child] in the history language: the process forks and the child makes the
+   calls [child].  Every history of calls and forks: the parent's and every child's answers are the
+   demanded ones, the child continuing the history as of the fork (fork = identity on the wrap state) *)
+Theorem C10_fork_exact : forall ops, forallb fop_ok ops = true ->
+  ftrace [] ops = (map Val (fst (spec_ftrace [] ops)), map (map Val) (snd (spec_ftrace [] ops))).
+Proof. exact fork_exact. Qed.
+Print Assumptions C10_fork_exact.
+
+(* the child's answers equal those of the unforked continuation *)
+Theorem C10_fork_child_continues : forall pre child,
+  snd (spec_ftrace [] (map FCall pre ++ [FFork child])) = [skipn (length pre) (spec_ptrace [] (pre ++ child))].
+Proof. exact fork_child_continues. Qed.
+Print Assumptions C10_fork_child_continues.
+
+(* the parent's answers do not depend on its forks *)
+Theorem C10_fork_parent_unaffected : forall ops g, fst (spec_ftrace g ops) = spec_ptrace g (calls_of ops).
+Proof. exact fork_parent_unaffected. Qed.
+Print Assumptions C10_fork_parent_unaffected.
+
+(* the model's "fork = identity" holds of the source under test (table generated by ast on every run):
+   no handler passed to os.register_at_fork in psutil/_common.py / psutil/__init__.py touches cache,
+   reminders, reminder_keys, cache_clear, re-creates _wn or cannot be resolved (locks may be
+   taken, released or re-created) *)
+Theorem C10_fork_handlers_keep_history : forallb handler_safe gen_fork_handlers = true.
+Proof. exact fork_handlers_keep_history. Qed.
+Print Assumptions C10_fork_handlers_keep_history.
